@@ -30,6 +30,8 @@ func genLemmaVC(ld *Loader, specs *Specs, ls []*Lemma) *FuncVC {
 				t = tBool
 			case "string", "bytes":
 				t = tString
+			case "real":
+				t = types.Typ[types.Float64]
 			case "[]byte":
 				t = types.NewSlice(types.Typ[types.Uint8])
 			default:
